@@ -559,7 +559,7 @@ func (ct *cacheTrial) message(n *pb.Notification, wire []byte) string {
 		if !named {
 			// No named corner explains it: the class is the fingerprint of the
 			// smallest message that still fails the same way on the re-created cache.
-			small := shrink(part, 150, func(m proto.Message) bool {
+			small := shrink(part, 250, func(m proto.Message) bool {
 				env := ct.rebuild()
 				if env == nil {
 					return false
